@@ -115,6 +115,7 @@ func (m *Metrics) computeStats() {
 	values := stats.Sample{Xs: m.Values}
 	q1, q3 := values.Percentile(0.25), values.Percentile(0.75)
 	lo, hi := q1-1.5*(q3-q1), q3+1.5*(q3-q1)
+	m.RValues = nil
 	for _, value := range m.Values {
 		if lo <= value && value <= hi {
 			m.RValues = append(m.RValues, value)
